@@ -85,8 +85,12 @@ Ltac expose := cbv beta iota zeta delta [%s isum isum_aux skipn INR Nat.sub buil
 
 def point_goal(idx, term, value, tol):
     """`term` must be within tol of the float `value` (exact rational of the float)"""
-    return ('Goal True. Proof. first [ assert (Rabs (%s - %s) <= %s) by (expose; interval with (i_prec 120, i_depth 5)) | idtac "PFAIL %d" ]. exact I. Qed.'
-            % (term, rq(value), rq(tol), idx))
+    # a goal whose certification does not finish within its time limit (a deep tree of numerical fallbacks unfolds into a term that grows
+    # exponentially with the nesting) is UNDECIDED, not a disagreement: "PSKIP n" (counted in SKIPPED, left out of the evaluations)
+    return ('Goal True. Proof. first [ timeout %d (first [ assert (Rabs (%s - %s) <= %s) by (expose; interval with (i_prec 120, i_depth 5)) | idtac "PFAIL %d" ]) | idtac "PSKIP %d" ]. exact I. Qed.'
+            % (GOAL_TIMEOUT, term, rq(value), rq(tol), idx, idx))
+GOAL_TIMEOUT = 60
+SKIPPED = []      # indices of undecided goals of the last run_point_goals call
 
 def run_point_goals(tag, goals, chunk=60):
     """goals: list of coq goal texts built by point_goal (indices embedded).  Returns failing indices."""
@@ -99,8 +103,10 @@ def run_point_goals(tag, goals, chunk=60):
     with ThreadPoolExecutor(max_workers=10) as ex:
         outs = list(ex.map(one, enumerate(bodies)))
     fails = []
+    del SKIPPED[:]
     for o in outs:
         fails += [int(m) for m in re.findall(r'PFAIL (\d+)', o)]
+        SKIPPED.extend(int(m) for m in re.findall(r'PSKIP (\d+)', o))
     return sorted(fails)
 
 def impl_form(name):
